@@ -38,6 +38,21 @@ CUR = None          # the Sim the module-level proxies talk to
 BLOCK_CAP = 40      # blocking sleeps tolerated on one live pid before the environment ends the spin
 
 
+def _safe_int(v, d=-1):
+    """projection helpers: a daemon whose settings hold garbage must still be observable"""
+    try:
+        return int(v)
+    except Exception:
+        return d
+
+
+def _safe_ms(v, d=-1):
+    try:
+        return int(round(float(v) * 1000))
+    except Exception:
+        return d
+
+
 def ref_signum(v):
     """Reference reading of a signal designation (independent of circus.util.to_signum): number, numeric
     string, or a name of the signal module with or without SIG, any case.  -2 = not a designation."""
@@ -377,12 +392,12 @@ class Sim(object):
 
     def project_watcher(self, w):
         k = self.kernel
-        return {"n": w.name, "ln": w.name.lower(), "st": w._status, "np": int(w.numprocesses),
+        return {"n": w.name, "ln": w.name.lower(), "st": w._status, "np": _safe_int(w.numprocesses, -99),
                 "npbad": not isinstance(w.numprocesses, int) or isinstance(w.numprocesses, bool),
                 "sing": bool(w.singleton), "resp": bool(w.respawn),
-                "G": int(round(w.graceful_timeout * 1000)), "W": int(round(float(w.warmup_delay) * 1000)),
-                "ssig": int(w.stop_signal), "sch": bool(w.stop_children), "od": bool(w.on_demand),
-                "mage": int(w.max_age), "hup": bool(w.send_hup),
+                "G": _safe_ms(w.graceful_timeout), "W": _safe_ms(w.warmup_delay),
+                "ssig": _safe_int(w.stop_signal), "sch": bool(w.stop_children), "od": bool(w.on_demand),
+                "mage": _safe_int(w.max_age), "hup": bool(w.send_hup),
                 "pr": [[k.short(p.pid), int(p.wid), 1 if p.stopping else 0]
                        for p in w.processes.values()]}
 
@@ -416,9 +431,16 @@ class Sim(object):
         self.replies.setdefault(cidn, []).append(obj)
         st = obj.get("status") if isinstance(obj, dict) else "malformed"
         err = obj.get("errno", 0) if isinstance(obj, dict) else 0
+        reason = str(obj.get("reason", "")) if isinstance(obj, dict) else ""
+        low = reason.lower()
+        rc = ("singleton" if "singleton" in low else "uid" if "valid user" in low or "uid" in low
+              else "gid" if "valid group" in low or "gid" in low
+              else "hook" if "import" in low or "no module" in low or "cannot resolve" in low
+              else "signal" if "signal" in low else "conflict" if "already running" in low or "restarting" in low
+              else "" if not reason else "other")
         self.rec("reply", x=cidn, r=str(st), a=err if isinstance(err, int) else 0,
                  w=mid if isinstance(mid, str) else "json:" + json.dumps(mid),
-                 b=1 if isinstance(obj, dict) else 0)
+                 b=1 if isinstance(obj, dict) else 0, rc=rc)
 
     def on_event(self, parts):
         topic = parts[0].decode("utf8")
